@@ -29,6 +29,7 @@ TRUSTED = ["models: coq/theories/ErrEnc.v (+ PathEnc.v, Blocks.v); wire/colkeys 
 
 K_OBJ = "klae_objective_unscaled"
 K_DROP = "node_mode_single_node_path_dropped"
+K_CAP = "cycles_rep_cap_from_reachable_max"
 
 
 def scaled_lt1(args):
@@ -82,7 +83,7 @@ def check_solution(ctx, cls, args, m, exact, eng="E2_recompute"):
         ctx.report(f"{cls}: is_valid_solution() raised {e!r} on the model's own optimum", rep); valid = True
     if not valid:
         # the only known reason: the objective comparison inside is_valid_solution uses the unscaled sum
-        key = K_OBJ if (scaled_lt1(args) and abs(ro - so) > 0.001 * m.original_k) else None
+        key = K_OBJ if (scaled_lt1(args) and abs(ro - so) > 0.001 * getattr(m, "original_k", m.k)) else None
         ctx.report(f"{cls}: is_valid_solution() rejects the model's own optimal solution", rep, key=key)
     else:
         ctx.count(eng, "is_valid_solution_accepts")
@@ -206,7 +207,18 @@ def run_cyclic(ctx, n):
             ctx.count("E2_recompute_cycles", "solved")
             check_solution(ctx, "kLeastAbsErrorsCycles", args, m, is_int, eng="E2_recompute_cycles")
         else:
-            ctx.count("E2_recompute_cycles", "unsolved:" + str(m.solver.get_model_status()))
+            st = m.solver.get_model_status()
+            ctx.count("E2_recompute_cycles", "unsolved:" + str(st))
+            if st == "kInfeasible":
+                # without constraints every k >= 1 admits k walks with zero weights; the only known obstacle is the
+                # repetition cap derived from the weights: re-solve with all weights multiplied by a large constant
+                verdict, c = errlib.rescale_feasible("kLeastAbsErrorsCycles", args)
+                if verdict == "inconclusive":
+                    ctx.count("E2_recompute_cycles", "infeasible_diagnosis_inconclusive(time limit)")
+                else:
+                    ctx.report("kLeastAbsErrorsCycles is infeasible although there are no subset constraints",
+                               {"class": "kLeastAbsErrorsCycles", "args": errlib.describe(args), "feasible_after_scaling_by": c},
+                               key=K_CAP if verdict == "feasible" else None)
         ctx.case(["lae-cyc", errlib.describe(args)], nontrivial=G_has_cycle(args["G"]))
 
 
@@ -232,9 +244,9 @@ def run(ctx):
                 "tiny stream: <= 6 edges, weights <= 4, integer type, compared with the exhaustive optimum; cyclic stream: kLeastAbsErrorsCycles on <= 5-node digraphs. "
                 "non-trivial = LP has more than 8 rows (at least one product block and error rows) / graph has a cycle")
     witness_12(ctx)
-    run_dag(ctx, ctx.budget(120, 3000), tiny=False)
-    run_dag(ctx, ctx.budget(70, 2500), tiny=True)
-    run_cyclic(ctx, ctx.budget(30, 800))
+    run_dag(ctx, ctx.budget(300, 6000), tiny=False)
+    run_dag(ctx, ctx.budget(200, 5000), tiny=True)
+    run_cyclic(ctx, ctx.budget(60, 1500))
 
 
 def replay(ctx, body):
